@@ -97,7 +97,10 @@ class Rd:
                 self.dc.append((self.base + s + z + 1, self.base + s + width))
                 if any(b[z + 1 :]):
                     self.noncanon.append(("tail", s))
-        return txt.decode("cp1252")
+        try:
+            return txt.decode("cp1252")
+        except UnicodeDecodeError:
+            raise LayoutError(f"text field at {self.base + s} is not cp1252")
 
 
 def _runs(mask):
